@@ -602,3 +602,63 @@ def run_grouped(binary, lines, group_of, procs=4, batch=300, max_same=25):
                 if sigcount[k] >= max_same:
                     dead.add(g)
     return results, faults, leaky, skipped
+
+
+# ------------------------------------------------------------------ --replay
+def replay_file(chk, binary, path, alt_lines=None, judge_alt=None):
+    """Re-execute one stored failing case (replays/<id>/*.json) on the current tree and judge it again."""
+    with open(path) as fh:
+        d = json.load(fh)
+    rep = d.get("case") or {}
+    sig0 = d.get("signature", "replay")
+    if isinstance(rep, str):
+        rep = {"line": rep}
+    case = rep.get("case")
+    chk.cov["rule"] = "replay of one stored case"
+    if "expected" in rep and "line" in rep:                       # a streaming history
+        res, faults = common.run_harness(binary, [rep["line"]])
+        got = res.get(rep["line"].split(" ", 1)[0], [])
+        exp = rep["expected"]
+        chk.count(("replay", rep["line"]), True)
+        if faults or not all(e == g or (e == "h?" and g in ("h0", "h1")) for e, g in zip(exp, got)) or len(got) < len(exp):
+            chk.violation(sig0, "replay: %s expected %s got %s" % (rep["line"], exp, got), rep)
+        return
+    if isinstance(case, dict) and case.get("kind") in FAMILIES and "selfok" not in case:      # round trip / encoder output
+        lines = roundtrip_lines("r0", case)
+        res, faults = common.run_harness(binary, lines)
+        mm, events, _ = check_roundtrip("r0", case, res)
+        chk.count(case_key(case), True)
+        verdicts, tr = trace_validate(events, groups=1, workers=1)
+        if tr:
+            chk.add_tlc(tr)
+        if chk.pid == "C11":
+            for m in mm:
+                chk.violation(m.sig, m.what, rep)
+            for eid, v in verdicts.items():
+                if not v["ok"] and v["why"].startswith("length:"):
+                    chk.violation("%s-enc:encoded-size:%s" % (case["kind"], v["why"][7:]), "replay: " + v["why"], rep)
+        else:
+            for e in events:
+                v = verdicts[e["id"]]
+                if not v["ok"]:
+                    chk.violation(trace_signature(case, v, e.get("bytes", e.get("idx"))), "replay: specification reader rejects carquet's output: %s" % v["why"], rep)
+        for f in faults:
+            chk.violation(fault_signature("enc:%s" % case["kind"], f), "replay: fault", rep)
+        return
+    if isinstance(case, dict) and "selfok" in case and alt_lines and judge_alt:                   # specification-written stream
+        lines = alt_lines("r0", case)
+        if case["kind"] == "hyb":
+            lines.append("r0O rle_rt %d %s" % (case["bw"], csv(hyb_values(case))))
+        res, faults = common.run_harness(binary, lines)
+        chk.count(("replay", json.dumps(case, sort_keys=True)[:2000]), True)
+        judge_alt("r0", case, res, lambda sig, what, cid, c: chk.violation(sig, "replay: " + what, rep), {})
+        for f in faults:
+            chk.violation(fault_signature("dec:%s" % case["kind"], f), "replay: fault", rep)
+        return
+    lines = rep.get("lines") or ([rep["line"]] if "line" in rep else [])
+    if not lines:
+        raise InfraError("replay file %s has no executable case" % path)
+    res, faults = common.run_harness(binary, [ln for ln in lines if isinstance(ln, str)])
+    chk.count(("replay", lines), True)
+    for f in faults:
+        chk.violation(sig0, "replay: %s" % f.signature(), rep)
